@@ -422,6 +422,10 @@ func (h *hbrw) call(c *ast.CallExpr) ast.Expr {
 				case "Write", "WriteAt":
 					ioKind = "IOWrite"
 				}
+				// the transport (net.Conn) is a scheduling point already; file I/O becomes one
+				if ioKind != "" && fn.Pkg() != nil && fn.Pkg().Path() != "net" {
+					ioKind += "P"
+				}
 			}
 			f.X = h.recv(f.X, sel)
 		}
